@@ -8,6 +8,8 @@ SPEC = {
         {"pkg": "internal/system", "test": "TestVerifC10link", "newgo": True, "timeout": 900, "corr_module": "Corr.C10link"},
         # the back-off on the wall clock, built like the shipped binary (no GODEBUG override: old timer-channel semantics)
         {"pkg": "internal/system", "test": "TestVerifC10dialReal", "newgo": False, "timeout": 120, "arch386": []},
+                # real parallelism: send workers against the scheduler's stop (nothing in flight, nothing starts after it)
+                {"pkg": "internal/corerad", "test": "TestVerifParallel", "newgo": True, "timeout": 600, "arch386": [], "env": {"VERIF_PAR": "workers"}},
         # the real dialNDP / checkInterface / lookupInterface on a veth pair (root only; tagged unavailable otherwise)
         {"pkg": "internal/system", "test": "TestVerifRealOS", "newgo": True, "timeout": 300},
     ],
